@@ -377,6 +377,7 @@ def gen_program(rng, focus):
     cfg['savefreq'] = rng.random() < 0.6
     cfg['ops'] = ops
     if rng.random() < 0.15: cfg['extra_args'] = [rng.choice([0.5, -1.0, 3.0])]
+    cfg['monitors_by_keyword'] = rng.random() < 0.15
     cfg['limit_style'] = rng.choice(['positional', 'positional', 'keywords', 'alias', 'mixed_a', 'mixed_b', 'mixed_c'])
     return cfg
 
@@ -436,10 +437,17 @@ def run_program(cfg, obs, focus, tmpdir):
     led.set_limits(s, None, None, False)        # nothing set yet: the documented defaults bound the totals
     K.init_points(s, cfg)
     sm = make_monitor(cfg['stepmon_kind'], led, 'step')
-    if sm is not None: s.SetGenerationMonitor(sm)
     em = make_monitor(cfg['evalmon_kind'], led, 'eval')
+    first_kw = {}          # monitors handed over as keywords of the first Step / Solve call instead of through the Set* methods (documented equivalent)
+    by_kw = bool(cfg.get('monitors_by_keyword')) and cfg['ops'] and cfg['ops'][0][0] in ('step', 'solve', 'solve_default')
+    if sm is not None:
+        if by_kw: first_kw['StepMonitor'] = sm
+        else: s.SetGenerationMonitor(sm)
     if em is not None:
-        s.SetEvaluationMonitor(em); led.evalmon = em
+        if by_kw: first_kw['EvaluationMonitor'] = em
+        else: s.SetEvaluationMonitor(em)
+        led.evalmon = em
+    if first_kw: obs.event('monitors_given_as_keywords_of_the_first_call')
     term = make_term(cfg['term'])
     if term is not None:
         s.SetTermination(term); led.term = term
@@ -479,7 +487,7 @@ def run_program(cfg, obs, focus, tmpdir):
             before = led.stepped
             if k == 'step':
                 for _ in range(op[1]):
-                    msg = s.Step(callback=led.callback, **kw)
+                    msg = s.Step(callback=led.callback, **dict(kw, **first_kw)); first_kw.clear()
                     led.after_call(s, 'Step')
                     if msg:
                         led.at_stop(s)
@@ -510,7 +518,7 @@ def run_program(cfg, obs, focus, tmpdir):
                     return _orig(*a, **kws)
                 s.Step = guarded
                 try:
-                    s.Solve(callback=led.callback, **kw)
+                    s.Solve(callback=led.callback, **dict(kw, **first_kw)); first_kw.clear()
                     returned = True
                 except Abort:
                     returned = False
